@@ -10,9 +10,15 @@ fail arbitrarily) and every failure schedule of Set/Unset (`c.fails`).
 list of items left to right, each once, keep the first exception.
 -/
 import ElvModel.C21.Model
+import ElvModel.C21.Show
 import ElvProofs.C21.Seq
 import ElvProofs.C21.Store
 import ElvProofs.C21.Assign
+import ElvProofs.C21.Accept1
+import ElvProofs.C21.Accept2
+import ElvProofs.C21.Fuel
+import ElvModel.C21.Spec
+import ElvModel.C21.Driver
 open C21
 
 /-! ### The Go loops: every collected function exactly once, last first -/
@@ -87,11 +93,11 @@ theorem C21_body_exception_wins {β : Type} (c : Cfg) (runCb : β → St → R)
 
 /-- `tmp`: what the assignment hands to the defer list for x saved x's
 content from immediately before the assignment (value, or "unset"). -/
-theorem C21_tmp_saves_previous_value {β : Type} (c : Cfg) (lvs : List LV) (vs : List Val)
+theorem C21_tmp_saves_previous_value {β : Type} (c : Cfg) (g : Group)
     (s : St) (x : VarId) (it : Item β)
-    (h : firstFor x (doAssign c true lvs vs s : AR β).items = some it) :
+    (h : firstFor x (doAssign c true g s : AR β).items = some it) :
     it.head = some x ∧ it.target = s.store x := by
-  have := doAssign_first c x lvs vs s it h
+  have := doAssign_first c x g s it h
   subst this
   exact ⟨save_head s x, save_target s x⟩
 
@@ -116,7 +122,7 @@ failed), then the restores; the Set/Unset calls of the restore phase are, in
 order, exactly the reverse of the successful Sets of the assignment phase —
 each assignment undone exactly once, last first, on every exit path — and the
 restore phase does nothing else. -/
-theorem C21_with_restore_order (c : Cfg) (groups : List (List LV × List Val))
+theorem C21_with_restore_order (c : Cfg) (groups : List Group)
     (body : St → R) (s : St) :
     let a : AR Empty := assignGroups c groups s
     let m := withMid c groups body s
@@ -135,7 +141,7 @@ theorem C21_with_restore_order (c : Cfg) (groups : List (List LV × List Val))
 whole or through an element: the item is on the head variable) holds its
 pre-`with` content again, provided the restore that runs last for it (the one
 registered first) succeeds. -/
-theorem C21_with_restores_value_if_restore_ok (c : Cfg) (groups : List (List LV × List Val))
+theorem C21_with_restores_value_if_restore_ok (c : Cfg) (groups : List Group)
     (body : St → R) (s : St) (x : VarId) (pre post : List (Item Empty)) (it : Item Empty)
     (hitems : (assignGroups c groups s : AR Empty).items = pre ++ it :: post)
     (hx : it.head = some x) (hpre : ∀ j ∈ pre, j.head ≠ some x)
@@ -160,7 +166,7 @@ theorem C21_with_restores_value_if_restore_ok (c : Cfg) (groups : List (List LV 
 
 /-- Same, for a variable whose Set/Unset never fails (failures of OTHER
 variables' restores, of the body, of anything else, are arbitrary). -/
-theorem C21_with_restores_value (c : Cfg) (groups : List (List LV × List Val))
+theorem C21_with_restores_value (c : Cfg) (groups : List Group)
     (body : St → R) (s : St) (x : VarId)
     (hx : ∃ it ∈ (assignGroups c groups s : AR Empty).items, it.head = some x)
     (hnf : NeverFails c x) :
@@ -180,7 +186,7 @@ theorem C21_with_restores_value (c : Cfg) (groups : List (List LV × List Val))
 
 /-- What `with` reports: the failing assignment's exception; else the body's
 if it failed; else the first failing restore in execution order; else none. -/
-theorem C21_with_outcome (c : Cfg) (groups : List (List LV × List Val)) (body : St → R) (s : St) :
+theorem C21_with_outcome (c : Cfg) (groups : List Group) (body : St → R) (s : St) :
     let a : AR Empty := assignGroups c groups s
     let m := withMid c groups body s
     (withExec c groups body s).out =
@@ -213,13 +219,18 @@ theorem C21_interp_call_outcome (c : Cfg) (f : Nat) (b : Block) (isFn : Bool) (s
       firstExc (seqOuts c (fun cb s => callBlock c f cb false s) body.items.reverse body.st) = some e) :=
   C21_cleanup_exception_only_if_body_succeeded c _ isFn _ s e h
 
-/-! ### Non-vacuity and the witnesses of harness/corpus/C21.txt on the model -/
+/-! ### Non-vacuity and the witnesses of harness/corpus/C21.txt on the model
+
+Logs are compared as text (`Event.toS`: values rendered to bytes — 48 is `0`). -/
 
 namespace C21.Ex
 /-- variable 0 is logged and its 2nd Set fails; everything else ordinary -/
 def cfg : Cfg := { kind := fun x => if x = 0 then .logged else .ord, fails := fun x i => x == 0 && i == 1 }
-def st0 : St := { store := fun _ => some (.num 0), cnt := fun _ => 0, next := 0, oof := false }
+def st0 : St := { store := fun _ => some (numV 0), cnt := fun _ => 0, next := 0, oof := false }
 def failing (n : Nat) : St → R := fun s => ⟨s, [], some (.fail n)⟩
+/-- `x = n` -/
+def asg1 (x n : Nat) : Group := ⟨[.var x], none, [numV n]⟩
+def txt (r : R) : List SEv := r.ev.map Event.toS
 end C21.Ex
 open C21.Ex
 
@@ -227,31 +238,30 @@ open C21.Ex
 example : (callBlock cfg 3 ⟨0, [.deferS 1 [.fail 2 7], .deferS 3 []]⟩ true st0).out = some (.fail 7) := by decide
 
 /-- `with x0 = 5 { fail 3 }`, restore of x0 fails: the body's exception is reported, the restore was attempted. -/
-example : (withExec cfg [([.var 0], [.num 5])] (failing 3) st0).out = some (.fail 3) ∧
-    (withExec cfg [([.var 0], [.num 5])] (failing 3) st0).ev =
-      [.set 0 (.num 5) true, .set 0 (.num 0) false] := by decide
+example : (withExec cfg [asg1 0 5] (failing 3) st0).out = some (.fail 3) ∧
+    txt (withExec cfg [asg1 0 5] (failing 3) st0) = [.set 0 [53] true, .set 0 [48] false] := by decide
 
 /-- `with x0 = 5 { }`, restore fails, body ok: the restore failure is reported. -/
-example : (withExec cfg [([.var 0], [.num 5])] (fun s => ⟨s, [], none⟩) st0).out = some (.restoreFail 0) := by decide
+example : (withExec cfg [asg1 0 5] (fun s => ⟨s, [], none⟩) st0).out = some (.restoreFail 0) := by decide
 
-/-- `with [x1 = 5] [x0 = 6] [x0 = 7] { break }`: third assignment fails…  no — second Set on x0 fails:
+/-- `with [x1 = 5] [x0 = 6] [x0 = 7] { break }`: the second Set on x0 fails:
 x1 is restored although a later assignment failed and the body never ran. -/
-example : (withExec cfg [([.var 1], [.num 5]), ([.var 0], [.num 6]), ([.var 0], [.num 7])]
-      (fun s => ⟨s, [], some .brk⟩) st0).st.store 1 = some (.num 0) := by decide
+example : showSlot ((withExec cfg [asg1 1 5, asg1 0 6, asg1 0 7]
+      (fun s => ⟨s, [], some .brk⟩) st0).st.store 1) = [48] := by decide
 
 /-- hypotheses of C21_with_restores_value are satisfiable: x1 is assigned and never fails -/
-example : (∃ it ∈ (assignGroups cfg [([.var 1], [.num 5])] st0 : AR Empty).items, it.head = some 1) ∧
+example : (∃ it ∈ (assignGroups cfg [asg1 1 5] st0 : AR Empty).items, it.head = some 1) ∧
     NeverFails cfg 1 := by
-  refine ⟨⟨.restore 1 (.num 0), by simp [assignGroups, doAssign, assignLoop, deref, save, refSet, varSet, cfg, st0, Kind.isLogged, Ref.head], rfl⟩, ?_⟩
+  refine ⟨⟨.restore 1 (numV 0), by simp [assignGroups, doAssign, derefAll, deref, restValues, assignLoop, save, refSet, varSet, cfg, st0, asg1, Kind.isLogged, LV.head], rfl⟩, ?_⟩
   intro i; simp [cfg]
 
 /-- tmp + defer share the list: `fn f { tmp x0 = 5; defer { }; return }` — return is absorbed by fn,
 the callback runs first, then the failing restore is reported. -/
-example : (callBlock cfg 3 ⟨0, [.asg 1 true [.var 0] [.num 5], .deferS 2 [.mark 3], .ret 4]⟩ true st0).out
+example : (callBlock cfg 3 ⟨0, [.asg 1 true (asg1 0 5), .deferS 2 [.mark 3], .ret 4]⟩ true st0).out
       = some (.restoreFail 0) ∧
-    (callBlock cfg 3 ⟨0, [.asg 1 true [.var 0] [.num 5], .deferS 2 [.mark 3], .ret 4]⟩ true st0).ev
-      = [.enter 0 0, .at 0 1, .set 0 (.num 5) true, .at 0 2, .at 0 4, .enter 1 2, .at 1 3,
-         .set 0 (.num 0) false] := by decide
+    txt (callBlock cfg 3 ⟨0, [.asg 1 true (asg1 0 5), .deferS 2 [.mark 3], .ret 4]⟩ true st0)
+      = [.enter 0 0, .at 0 1, .set 0 [53] true, .at 0 2, .at 0 4, .enter 1 2, .at 1 3,
+         .set 0 [48] false] := by decide
 
 /-! ### What the interpreter's statements register (program order = registration order) -/
 
@@ -259,10 +269,10 @@ example : (callBlock cfg 3 ⟨0, [.asg 1 true [.var 0] [.num 5], .deferS 2 [.mar
 registers exactly what `doAssign` collected; a statement sequence registers
 the concatenation, in program order, up to the statement that threw. -/
 theorem C21_interp_registers (c : Cfg) (call : Block → Bool → St → R) (g k : Nat)
-    (body : List Stmt) (lvs : List LV) (vs : List Val) (st : Stmt) (rest : List Stmt) (s : St) :
+    (body : List Stmt) (grp : Group) (st : Stmt) (rest : List Stmt) (s : St) :
     (execStmt c call g (.deferS k body) s).items = [.cb ⟨k, body⟩] ∧
     (execStmt c call g (.deferS k body) s).st = s ∧
-    (execStmt c call g (.asg k true lvs vs) s).items = (doAssign c true lvs vs s : AR Block).items ∧
+    (execStmt c call g (.asg k true grp) s).items = (doAssign c true grp s : AR Block).items ∧
     (execStmts c call g (st :: rest) s).items =
       match (execStmt c call g st s).out with
       | some _ => (execStmt c call g st s).items
@@ -274,14 +284,151 @@ theorem C21_interp_registers (c : Cfg) (call : Block → Bool → St → R) (g k
 
 /-- A body that is a row of `defer`s: the callbacks run last-registered first
 (the log shows the frames of blocks kₙ, …, k₁ being entered in this order). -/
-example : (callBlock cfg 3 ⟨0, [.deferS 1 [], .deferS 2 [], .deferS 3 []]⟩ false st0).ev =
+example : txt (callBlock cfg 3 ⟨0, [.deferS 1 [], .deferS 2 [], .deferS 3 []]⟩ false st0) =
     [.enter 0 0, .at 0 1, .at 0 2, .at 0 3, .enter 1 3, .enter 2 2, .enter 3 1] := by decide
 
 /-- `fn f { tmp x1[0] x1[1] = 5 6; peek x1 }` on `[1 2 3]` (element assignment on the variable's
 CURRENT value, 798ebe2): inside the function x1 is `[5 6 3]`; afterwards both restores (each of the
-whole head variable, last first) have put `[1 2 3]` back. -/
+whole head variable, last first) have put `[1 2 3]` back.  (`[5;6;3]` = 91 53 59 54 59 51 93.) -/
 example :
-    let st1 : St := { st0 with store := fun _ => some (.list [1, 2, 3]) }
-    let r := callBlock cfg 3 ⟨0, [.asg 1 true [.elem 1 0, .elem 1 1] [.num 5, .num 6], .peek 2 1]⟩ true st1
-    r.ev = [.enter 0 0, .at 0 1, .at 0 2, .val 1 (some (.list [5, 6, 3]))] ∧
-    r.st.store 1 = some (.list [1, 2, 3]) ∧ r.out = none := by decide
+    let st1 : St := { st0 with store := fun _ => some (numsV [1, 2, 3]) }
+    let r := callBlock cfg 3 ⟨0, [.asg 1 true ⟨[.elem 1 (numK 0) [], .elem 1 (numK 1) []], none, [numV 5, numV 6]⟩,
+                                  .peek 2 1]⟩ true st1
+    txt r = [.enter 0 0, .at 0 1, .at 0 2, .val 1 [91, 53, 59, 54, 59, 51, 93]] ∧
+    showSlot (r.st.store 1) = [91, 49, 59, 50, 59, 51, 93] ∧ r.out = none := by decide
+
+/-! ### Whole programs: the interpreter's log is accepted by the specification acceptor
+
+`C21.accepts` / `C21.sCall` (ElvModel/C21/Spec.lean) is the Lean port of the
+oracle the harness runs on REAL logs (harness/c21/oracle.go; the two are run
+against each other on real and damaged logs by the `acc` ops).  It is written
+from the property: each restore / deferred callback exactly once, last first,
+interleaved as registered, one restore per assigned lvalue, nothing else
+logged, body's exception first, final store and reported exception as claimed. -/
+
+/-- Every call the interpreter makes — any frame of any program, any failure
+schedule — produces a log the acceptor consumes exactly, predicting the
+reported exception and the store the call leaves. -/
+theorem C21_call_accepted (c : Cfg) (fuel k : Nat) (body : List Stmt) (isFn : Bool)
+    (hfuel : depthL body < fuel) (s : St) (rest : List SEv) :
+    sCall c.kind fuel k body isFn
+        ⟨(callBlock c fuel ⟨k, body⟩ isFn s).ev.map Event.toS ++ rest, s.store, s.next⟩ =
+      some ((callBlock c fuel ⟨k, body⟩ isFn s).out,
+            ⟨rest, (callBlock c fuel ⟨k, body⟩ isFn s).st.store, (callBlock c fuel ⟨k, body⟩ isFn s).st.next⟩) :=
+  callBlock_sim c fuel k body isFn hfuel s rest
+
+/-- THE whole-program theorem: for every program of the modelled language,
+every kind assignment and every Set/Unset failure schedule, the run of the
+interpreter (log, reported exception, final store) is accepted. -/
+theorem C21_log_accepted (c : Cfg) (prog : List Stmt) (s : St) (fuel nvars : Nat)
+    (hnext : s.next = 0) (hfuel : depthL prog < fuel) :
+    accepts c.kind fuel prog s.store nvars (callBlock c fuel ⟨0, prog⟩ true s).out
+      ((List.range nvars).map fun x => showSlot ((callBlock c fuel ⟨0, prog⟩ true s).st.store x))
+      ((callBlock c fuel ⟨0, prog⟩ true s).ev.map Event.toS) = true := by
+  have h := C21_call_accepted c fuel 0 prog true hfuel s []
+  rw [List.append_nil, hnext] at h
+  unfold accepts
+  rw [h]
+  simp
+
+/-- Fuel sufficiency: with fuel above the static nesting depth of lambdas the
+interpreter never runs out of fuel (the sticky flag the driver prints as
+`FUEL` stays clear) … -/
+theorem C21_fuel_sufficient (c : Cfg) (fuel k : Nat) (body : List Stmt) (isFn : Bool) (s : St)
+    (hfuel : depthL body < fuel) (hs : s.oof = false) :
+    (callBlock c fuel ⟨k, body⟩ isFn s).st.oof = false := by
+  rw [callBlock_oof c fuel k body isFn hfuel s, hs]
+
+/-- … and the driver runs every program with exactly such fuel
+(`runModel` = `callBlock … (depthL body + 1)` from a state with `oof = false`):
+`FUEL` is unreachable for every op line. -/
+theorem C21_driver_fuel_sufficient (ds : List Decl) (body : List Stmt) :
+    (runModel ds body).st.oof = false :=
+  C21_fuel_sufficient _ _ 0 body true _ (Nat.lt_succ_self _) rfl
+
+/-- …so the driver's run of every program is accepted. -/
+theorem C21_driver_log_accepted (ds : List Decl) (body : List Stmt) :
+    accepts (mkCfg ds).kind (depthL body + 1) body (mkSt ds).store ds.length (runModel ds body).out
+      ((List.range ds.length).map fun x => showSlot ((runModel ds body).st.store x))
+      ((runModel ds body).ev.map Event.toS) = true :=
+  C21_log_accepted (mkCfg ds) body (mkSt ds) _ ds.length rfl (Nat.lt_succ_self _)
+
+/-! ### One restore per lvalue -/
+
+/-- An assignment that succeeds hands its collector exactly ONE restore per
+lvalue, in lvalue order, each on the lvalue's head variable (also for
+`a b = 1 2`, `a @b = 1 2 3`, `a[0] a[1] = x y`: two restores of `a`). -/
+theorem C21_one_restore_per_lvalue {β : Type} (c : Cfg) (g : Group) (s : St) (hwf : g.WF)
+    (h : (doAssign c true g s : AR β).out = none) :
+    (doAssign c true g s : AR β).items.map Item.head = g.lvs.map fun l => some l.head :=
+  doAssign_items_heads c g s hwf h
+
+/-- `with` whose assignments all succeed: the Set/Unset calls of its restore
+phase are, in order, the head variables of ALL lvalues of all its assignments,
+reversed (those whose Set is logged) — on every exit path of the body. -/
+theorem C21_with_restores_every_lvalue (c : Cfg) (groups : List Group) (hwf : ∀ g ∈ groups, g.WF)
+    (body : St → R) (s : St) (h : (assignGroups c groups s : AR Empty).out = none) :
+    let a : AR Empty := assignGroups c groups s
+    let m := withMid c groups body s
+    (withExec c groups body s).ev = a.ev ++ m.ev ++ (runSeq c noCb a.items.reverse m.st m.out).ev ∧
+    (runSeq c noCb a.items.reverse m.st m.out).ev.filterMap Event.varOf =
+      (((groups.flatMap (·.lvs)).map LV.head).filter fun x => (c.kind x).isLogged).reverse := by
+  intro a m
+  refine ⟨by rw [withExec_eq], ?_⟩
+  rw [runSeq_ev_heads, List.filterMap_reverse]
+  congr 1
+  apply filterMap_loggedHead
+  rw [assignGroups_items_heads c groups hwf s h, List.map_map]
+  rfl
+
+namespace C21.Ex
+/-- both variables logged, nothing fails -/
+def cfg2 : Cfg := { kind := fun _ => .logged, fails := fun _ _ => false }
+/-- `with x0 x1 = 1 2 { }` (the witness of seeded/C21-with-keeps-only-last-restore-per-assignment) -/
+def prog2 : List Stmt := [.withS 1 [⟨[.var 0, .var 1], none, [numV 1, numV 2]⟩] []]
+/-- `tmp x0 @x1 = 1 2 3; defer { peek x1 }` -/
+def prog3 : List Stmt := [.asg 1 true ⟨[.var 0, .var 1], some 1, [numV 1, numV 2, numV 3]⟩, .deferS 2 [.peek 3 1]]
+end C21.Ex
+
+/-- The model's log of `with x0 x1 = 1 2 { }`: two Sets, the body, two restores (x1 first). -/
+example : txt (callBlock cfg2 3 ⟨0, prog2⟩ true st0) =
+    [.enter 0 0, .at 0 1, .set 0 [49] true, .set 1 [50] true, .enter 1 1,
+     .set 1 [48] true, .set 0 [48] true] := by decide
+
+/-- …it is accepted (non-vacuity of `C21_log_accepted`; the acceptor is executable) … -/
+example : accepts cfg2.kind 3 prog2 st0.store 2 none [[48], [48]]
+    [.enter 0 0, .at 0 1, .set 0 [49] true, .set 1 [50] true, .enter 1 1,
+     .set 1 [48] true, .set 0 [48] true] = true := by decide
+
+/-- …and the log of the seeded change (only the LAST lvalue of the assignment
+restored: no `S0=0`, x0 keeps 1) is rejected, as are a doubled and a swapped restore. -/
+example : accepts cfg2.kind 3 prog2 st0.store 2 none [[49], [48]]
+    [.enter 0 0, .at 0 1, .set 0 [49] true, .set 1 [50] true, .enter 1 1, .set 1 [48] true] = false ∧
+  accepts cfg2.kind 3 prog2 st0.store 2 none [[48], [48]]
+    [.enter 0 0, .at 0 1, .set 0 [49] true, .set 1 [50] true, .enter 1 1,
+     .set 1 [48] true, .set 0 [48] true, .set 0 [48] true] = false ∧
+  accepts cfg2.kind 3 prog2 st0.store 2 none [[48], [48]]
+    [.enter 0 0, .at 0 1, .set 0 [49] true, .set 1 [50] true, .enter 1 1,
+     .set 0 [48] true, .set 1 [48] true] = false := by decide
+
+/-- rest lvalue + tmp + defer: `x1` gets `[2;3]`, the callback (run first) sees it, then x1, x0 are restored. -/
+example : txt (callBlock cfg2 3 ⟨0, prog3⟩ true st0) =
+    [.enter 0 0, .at 0 1, .set 0 [49] true, .set 1 [91, 50, 59, 51, 93] true, .at 0 2,
+     .enter 1 2, .at 1 3, .val 1 [91, 50, 59, 51, 93], .set 1 [48] true, .set 0 [48] true] ∧
+    (doAssign cfg2 true ⟨[.var 0, .var 1], some 1, [numV 1, numV 2, numV 3]⟩ st0 : AR Block).out = none := by
+  decide
+
+/-- hypotheses of `C21_one_restore_per_lvalue` / `C21_with_restores_every_lvalue` are satisfiable:
+`x0 @x1 = 1 2 3` is well-formed and succeeds (two restores, one per lvalue, in lvalue order). -/
+example : (⟨[.var 0, .var 1], some 1, [numV 1, numV 2, numV 3]⟩ : Group).WF ∧
+    (assignGroups cfg2 [⟨[.var 0, .var 1], some 1, [numV 1, numV 2, numV 3]⟩] st0 : AR Empty).out = none ∧
+    ((doAssign cfg2 true ⟨[.var 0, .var 1], some 1, [numV 1, numV 2, numV 3]⟩ st0 : AR Empty).items.map
+      Item.head) = [some 0, some 1] := by
+  refine ⟨?_, by decide, by decide⟩
+  intro r h
+  cases h
+  decide
+
+/-- hypotheses of `C21_fuel_sufficient` are tight: with fuel = depth the flag is set. -/
+example : (callBlock cfg2 1 ⟨0, prog2⟩ true st0).st.oof = true ∧
+    (callBlock cfg2 2 ⟨0, prog2⟩ true st0).st.oof = false ∧ depthL prog2 = 1 := by decide
